@@ -20,6 +20,14 @@
 //!   Y y            the operator edits the configuration: second unit `rib2` absent (0) / a rib sourcing the bmp unit,
 //!                  answering at /rib2/ (1) / a unit of another type (bgp-tcp-in) of that name (2). Takes effect with the next H / L.
 //!   P af p         as Q, asked of `rib2`: p:<entries> (p:- when nothing answers at /rib2/)
+//!   K n            the operator edits the configuration: `[units.rib]` is a shorthand RIB with n generated vRIBs
+//!                  (`filter_names` with n+1 entries, which ConfigFile::new expands into the physical RIB `rib` and the units
+//!                  `rib-vRIB-0` .. `rib-vRIB-<n-1>`, each with `vrib_upstream = "rib"`, chained by their `sources`, the null target
+//!                  re-sourced to the last one); 0: a plain RIB. Takes effect with the next H / L; among the leading F / K ops of a
+//!                  case it describes the start-up configuration.
+//!   N i af p       as Q, asked of generated vRIB i: GET /prefixes/<i>/<prefix>: v:<entries>; v:- when no vRIB answers there
+//!                  (the physical RIB then takes the request and says 400); v:STALL when the request is not answered within
+//!                  VRIB_STALL_MS - the case ends there, every later op prints `x`.
 //! Script variants (rib-in-pre is what the RIB units fetch when they are started): 1..8 `rib-in-pre` rejects the routes of
 //! prefix 10.<s>.0.0/16 (prefix s of the R ops; the peers of these cases have no 4-octet-AS capability, so the AS-path
 //! predicates see nothing in their routes); 9 a script without a rib-in-pre filter.
@@ -41,6 +49,9 @@ use std::time::{Duration, Instant};
 
 const UNIT: &str = "bmp-in";
 const STALL_MS: u64 = 3000;
+/// a prefix query of a vRIB (trigger to the physical RIB, result back through the chain) normally takes a millisecond
+const VRIB_STALL_MS: u64 = 1500;
+const MAX_VRIBS: u32 = 3;
 const TEMPLATES: [&str; 3] = ["{sys_name}", "a{sys_name}", "b{sys_name}"];
 
 /// the router id (= label of the router's series) the unit derives from a template: format_source_id puts the ingress id for {sys_name}
@@ -66,9 +77,11 @@ pub fn pick_ports(n: usize) -> Vec<u16> {
 }
 
 // ------------------------------------------------------------------ HTTP client (HTTP/1.1, one request per connection)
-pub fn http_get(port: u16, path: &str) -> Option<(u16, String)> {
+pub fn http_get(port: u16, path: &str) -> Option<(u16, String)> { http_get_within(port, path, STALL_MS) }
+
+fn http_get_within(port: u16, path: &str, ms: u64) -> Option<(u16, String)> {
     let mut s = TcpStream::connect_timeout(&SocketAddr::from((Ipv4Addr::LOCALHOST, port)), Duration::from_millis(2000)).ok()?;
-    s.set_read_timeout(Some(Duration::from_millis(STALL_MS))).ok()?;
+    s.set_read_timeout(Some(Duration::from_millis(ms))).ok()?;
     s.set_nodelay(true).ok()?;
     s.write_all(format!("GET {path} HTTP/1.1\r\nHost: localhost\r\nConnection: close\r\n\r\n").as_bytes()).ok()?;
     let mut buf = Vec::new();
@@ -119,6 +132,7 @@ struct Desired {
     script: u32,   // 0: no roto_script in the configuration
     file_no: u32,  // the script's file name: filters.roto, filters-1.roto, ...
     rib2: u32,     // 0 absent, 1 rib, 2 bgp-tcp-in
+    vribs: u32,    // `rib` is a shorthand RIB with that many generated vRIBs (0: a plain RIB)
 }
 
 fn script_name(n: u32) -> String { if n == 0 { "filters.roto".into() } else { format!("filters-{n}.roto") } }
@@ -166,6 +180,7 @@ pub struct World {
     dir: Option<PathBuf>,            // the case's files (cases with F / W / Y ops)
     desired: Desired,
     bgp_port: u16,
+    wedged: bool,                    // a request was never answered: Manager::terminate is not tried at the end of the case
 }
 
 fn config_text(bmp_port: u16, http_port: u16, variant: usize, d: &Desired, bgp_port: u16) -> String {
@@ -178,10 +193,15 @@ fn config_text(bmp_port: u16, http_port: u16, variant: usize, d: &Desired, bgp_p
         2 => format!("\n[units.rib2]\ntype = \"bgp-tcp-in\"\nlisten = \"127.0.0.1:{bgp_port}\"\nmy_asn = 64512\nmy_bgp_id = [1, 2, 3, 4]\n\n[targets.null2]\ntype = \"null-out\"\nsources = [\"rib2\"]\n"),
         _ => String::new(),
     };
+    // the shorthand for a physical RIB with vRIBs behind it: one filter name per RIB (the names are not used since filters are
+    // compiled Roto functions; what counts is how many there are)
+    let shorthand = if d.vribs == 0 { String::new() } else {
+        format!("filter_names = [{}]\n", (0..=d.vribs).map(|i| format!("\"f{i}\"")).collect::<Vec<_>>().join(", "))
+    };
     format!(
         "http_listen = [\"127.0.0.1:{http_port}\"]\nlog_level = \"{lvl}\"\nlog_target = \"stderr\"\n{script}\n\
          [units.{UNIT}]\ntype = \"bmp-tcp-in\"\nlisten = \"127.0.0.1:{bmp_port}\"\nrouter_id_template = \"{tpl}\"\n\n\
-         [units.rib]\ntype = \"rib\"\nsources = [\"{UNIT}\"]\n\n\
+         [units.rib]\ntype = \"rib\"\nsources = [\"{UNIT}\"]\n{shorthand}\n\
          [targets.null]\ntype = \"null-out\"\nsources = [\"rib\"]\n{rib2}"
     )
 }
@@ -201,10 +221,12 @@ fn config_file(dir: &Option<PathBuf>, text: String) -> ConfigFile {
 
 impl World {
     /// What src/main.rs does: load the config through the manager, start the HTTP server, spawn the units.
-    pub fn start(files: bool, script: u32) -> World {
+    pub fn start(files: bool, script: u32) -> World { World::start_with(files, script, 0) }
+
+    fn start_with(files: bool, script: u32, vribs: u32) -> World {
         let ports = pick_ports(5);
         if std::env::var("VH_E2E_LOG").is_ok() { let _ = Config::init(); }
-        let desired = Desired { script, file_no: 0, rib2: 0 };
+        let desired = Desired { script, file_no: 0, rib2: 0, vribs };
         let dir = if files {
             let d = case_dir();
             std::fs::create_dir_all(&d).expect("case directory");
@@ -224,7 +246,7 @@ impl World {
         let mut w = World {
             rt: Some(rt), mgr, bmp_port: ports[0], http_port: ports[1], spare_ports: ports[2..4].to_vec(),
             conns: BTreeMap::new(), accepted: 0, lost: 0, binds: 1, reloaded: false, variant: 0, ids_of: BTreeMap::new(), rids: BTreeMap::new(), notes: vec![], stalled: None,
-            dir, desired, bgp_port: ports[4],
+            dir, desired, bgp_port: ports[4], wedged: false,
         };
         // the pipeline is up when the bmp-tcp-in unit has bound its listener (units start together, after their waitpoint)
         w.wait_metrics("listener bound", |t| metric_sum(t, "bmp_tcp_in_listener_bound_count_total", &[("component", UNIT)]) == Some(1));
@@ -235,7 +257,7 @@ impl World {
         self.conns.clear();
         // Manager::terminate waits, spinning, until every unit has closed its command channel. A case that stalled may have
         // left a unit that no longer takes commands (that is what the stall reports): then the runtime is dropped with its tasks.
-        if self.stalled.is_none() { let _g = self.rt.as_ref().unwrap().enter(); self.mgr.terminate(); }
+        if self.stalled.is_none() && !self.wedged { let _g = self.rt.as_ref().unwrap().enter(); self.mgr.terminate(); }
         if let Some(rt) = self.rt.take() { rt.shutdown_timeout(Duration::from_millis(500)); }
         if let Some(d) = self.dir.take() { if !debug() { let _ = std::fs::remove_dir_all(d); } }
     }
@@ -475,8 +497,13 @@ impl World {
 
     fn query_at(&mut self, base: &str, tag: &str, af: u32, p: u32) -> String {
         let path = format!("{base}{}", prefix_str(af, p));
-        let Some((st, body)) = self.get(&path) else { return format!("{tag}:http-error") };
+        let t0 = Instant::now();
+        let r = if tag == "v" { http_get_within(self.http_port, &path, VRIB_STALL_MS) } else { self.get(&path) };
+        if r.is_none() && tag == "v" && t0.elapsed() >= Duration::from_millis(VRIB_STALL_MS) { return "v:STALL".into(); }
+        let Some((st, body)) = r else { return format!("{tag}:http-error") };
         if st == 404 && tag == "p" { return "p:-".into(); }
+        // no generated vRIB of that number: the request falls through to the physical RIB, which cannot read "<i>/<prefix>"
+        if (st == 404 || st == 400) && tag == "v" { return "v:-".into(); }
         if st != 200 { return format!("{tag}:http-{st}"); }
         let Ok(v) = serde_json::from_str::<serde_json::Value>(&body) else { return format!("{tag}:bad-json") };
         let mut es: Vec<String> = vec![];
@@ -513,14 +540,30 @@ impl World {
     }
 }
 
+/// (the case keeps files, start-up script, start-up number of vRIBs, how many leading ops describe the start-up configuration)
+fn startup_of(all: &[Vec<&str>]) -> (bool, u32, u32, usize) {
+    let files = all.iter().any(|o| matches!(o[0], "F" | "W" | "Y" | "K"));
+    let (mut script, mut vribs, mut lead) = (0, 0, 0);
+    for (i, o) in all.iter().enumerate() {
+        match o[0] {
+            "F" if i == 0 => script = o[1].parse::<u32>().unwrap(),
+            "K" => vribs = o[1].parse::<u32>().unwrap().min(MAX_VRIBS),
+            _ => break,
+        }
+        lead = i + 1;
+    }
+    (files, script, vribs, lead)
+}
+
 pub fn run_case(line: &str) -> String {
     let all = ops(line);
-    let files = all.iter().any(|o| matches!(o[0], "F" | "W" | "Y"));
-    let startup = match all.first() { Some(o) if o[0] == "F" => o[1].parse::<u32>().unwrap(), _ => 0 };
-    let mut w = World::start(files, startup);
+    let (files, startup, vribs, _lead) = startup_of(&all);
+    let mut w = World::start_with(files, startup, vribs);
     let mut out: Vec<String> = vec![];
+    let mut ended = false;
     for op in all {
         let n = |i: usize| op[i].parse::<u32>().unwrap();
+        if ended { out.push("x".into()); continue; }
         match op[0] {
             "C" => {
                 let k = n(1);
@@ -589,6 +632,16 @@ pub fn run_case(line: &str) -> String {
             }
             "P" => out.push(w.query_at("/rib2/", "p", n(1), n(2))),
             "Q" => out.push(w.query(n(1), n(2))),
+            "K" => {
+                w.desired.vribs = n(1).min(MAX_VRIBS);
+                out.push("-".into());
+            }
+            "N" => {
+                let t = w.query_at(&format!("/prefixes/{}/", n(1)), "v", n(2), n(3));
+                // an HTTP request that is never answered: whatever was to answer it is gone or cut off; the case ends here
+                if t == "v:STALL" { ended = true; w.wedged = true; }
+                out.push(t);
+            }
             "M" => {
                 let k = n(1);
                 let text = w.metrics();
@@ -643,14 +696,14 @@ pub fn special(name: &str, args: &[String]) -> bool {
     if name == "e2e-raw" {
         // debugging aid: vh e2e-raw '<case>' <path> : run the case, then print one HTTP resource raw
         let all = ops(&args[0]);
-        let files = all.iter().any(|o| matches!(o[0], "F" | "W" | "Y"));
-        let startup = match all.first() { Some(o) if o[0] == "F" => o[1].parse::<u32>().unwrap(), _ => 0 };
-        let mut w = World::start(files, startup);
+        let (files, startup, vribs, _lead) = startup_of(&all);
+        let mut w = World::start_with(files, startup, vribs);
         for op in all {
             let n = |i: usize| op[i].parse::<u32>().unwrap();
             match op[0] {
                 "W" => w.edit_script(n(1), op.get(2).map(|x| *x == "1").unwrap_or(false)),
                 "Y" => w.desired.rib2 = n(1).min(2),
+                "K" => w.desired.vribs = n(1).min(MAX_VRIBS),
                 "C" => w.connect(n(1)),
                 "I" => { w.send(n(1), &enc::mk_initiation_msg("r", "d")); }
                 "U" => { w.send(n(1), &enc::mk_peer_up_notification_msg(&pph(n(2) as usize), "10.0.0.1".parse().unwrap(), 11019, 4567, 111, 222, 0, 0, vec![], n(3) == 1)); }
